@@ -55,6 +55,7 @@ type c12Sched struct {
 	trace   []string
 	wake    chan struct{}
 	delay   func() time.Duration // stress mode: no scheduling, just a delay
+	idpLag  time.Duration        // stress mode: latency of the provider's refresh endpoint (below the refresh lock's 2 s)
 }
 
 func (s *c12Sched) signal() {
@@ -67,10 +68,13 @@ func (s *c12Sched) signal() {
 func (s *c12Sched) gate(inst int, name string) {
 	s.mu.Lock()
 	if !s.enabled {
-		d := s.delay
+		d, lag := s.delay, s.idpLag
 		s.mu.Unlock()
 		if d != nil {
 			time.Sleep(d())
+		}
+		if lag > 0 && name == "IDP-REFRESH" {
+			time.Sleep(lag)
 		}
 		return
 	}
@@ -679,6 +683,16 @@ func c12Stress(run *vfRun, us []*c12Universe, rounds int) {
 			for k := 0; k < per; k++ {
 				nReq := 2 + rng.Intn(15)
 				oneInstance := rng.Intn(2) == 0
+				// the first two rounds of every universe: a SLOW provider that still answers within the refresh lock's
+				// duration (2 s) — the property's proviso holds, so exactly one refresh and everybody served
+				lag := time.Duration(0)
+				if k < 2 {
+					lag = []time.Duration{1250, 1750}[k] * time.Millisecond
+					nReq = 2 + rng.Intn(4)
+				}
+				u.s.mu.Lock()
+				u.s.idpLag = lag
+				u.s.mu.Unlock()
 				b, _, err := u.stale("rotating", 10*time.Minute)
 				if err != nil {
 					run.Inconclusive("rig: " + vfTrunc(err.Error(), 60))
@@ -730,11 +744,17 @@ func c12Stress(run *vfRun, us []*c12Universe, rounds int) {
 				if oneInstance {
 					mode = "stress/one-instance"
 				}
+				if lag > 0 {
+					mode += fmt.Sprintf("/provider-latency=%v", lag)
+					run.Eval(fmt.Sprintf("stress|slow provider %v|one-instance=%v", lag, oneInstance))
+					run.Count("stress_rounds_with_slow_provider", 1)
+				}
 				c12Judge(run, u, res, mode)
 				u.w.Up.Reset()
 			}
 			u.s.mu.Lock()
 			u.s.delay = nil
+			u.s.idpLag = 0
 			u.s.mu.Unlock()
 		}(ui, u)
 	}
